@@ -327,6 +327,21 @@ func ctlRaces(c *ctx, file func() string) error {
 				return err
 			}
 			f5 = f5c
+			ackedEarly := false
+			if kind == "uplink-vs-encoder" && (s/4)%3 == 2 {
+				// a confirmed message is picked by uplink 5; uplink 6 carries the ACK flag and is handled
+				// completely while the frame that would transmit the message is still being encoded: there
+				// has been no transmission yet that this ACK could follow
+				if err := h.submit(d, 10+s%200, []byte{0xc8, byte(s)}, true); err != nil {
+					return err
+				}
+				f6, err = h.uplinkFrame(d, 6, true, true, []byte{0x66, byte(s), 2})
+				if err != nil {
+					return err
+				}
+				ackedEarly = true
+				c.res.Count("scenario=ack-uplink-before-transmission")
+			}
 			if kind == "uplink-vs-encoder" && (s/4)%3 == 1 {
 				// a queued message the API accepts but the frame encoder cannot encode (FPort above 223):
 				// the encoder of uplink 5 gives up after it has fetched the counter
@@ -396,7 +411,7 @@ func ctlRaces(c *ctx, file func() string) error {
 						return err
 					}
 				}
-			} else if s%2 == 0 && held != nil {
+			} else if (s%2 == 0 || ackedEarly) && held != nil {
 				// the targeted schedule: uplink 6 runs to completion while the encoder of uplink 5 waits
 				for i := 0; i < 100 && !h.failed; i++ {
 					var next *arrival
@@ -412,6 +427,25 @@ func ctlRaces(c *ctx, file func() string) error {
 					sched = append(sched, next.op)
 					if err := h.stepArrival(next, false); err != nil {
 						return err
+					}
+				}
+				stillHeld := false
+				for _, a := range h.g.parked() {
+					if a == held {
+						stillHeld = true
+					}
+				}
+				if ackedEarly && !h.failed && c.prop == "C08" && stillHeld {
+					// the encoder that will transmit the message for the first time has not moved
+					if ms, err := h.rig.st.ListDownstreamMessages(d.eui); err == nil {
+						for _, m := range ms {
+							if m.Ack && m.AckTime > 0 {
+								h.c.res.Add(hx.Finding{Kind: "propfail", Engine: "pipectl", Signature: "acked-before-transmission", Case: append([]pipeEvent{}, h.trace...),
+									Impl: fmt.Sprintf("message created=%d: sent=%d acked=%d fcnt_up=%d, the encoder of its first transmission still stands before its counter operation", m.CreatedTime, m.SentTime, m.AckTime, m.FCntUp), Spec: "not acknowledged",
+									Note: "C08: a confirmed message is reported acknowledged although no transmission of it has left the server yet (the ACK uplink was handled while its first frame was still being encoded), schedule " + strings.Join(sched, ",")})
+								h.failed = true
+							}
+						}
 					}
 				}
 			}
